@@ -55,6 +55,31 @@ theorem genesis_guards_pinned : Irismod.Gen.PureGenesis.guards =
      "FarmInitGenesis: !exist",
      "FarmInitGenesis: err := k.SetParams(ctx, data.Params); err != nil"] := rfl
 
+/-- every statement of these functions executed for its effect — a call whose result is dropped (store and bank
+writes, queue moves, hooks) or a write to a record field — with its nesting depth, in source order: a write that is
+dropped, duplicated, reordered or moved into or out of a branch breaks this -/
+theorem genesis_effects_pinned : Irismod.Gen.PureGenesis.effects =
+    ["HtlcInitGenesis: d0 k.SetPreviousBlockTime(ctx, data.PreviousBlockTime)",
+     "HtlcInitGenesis: d1 k.SetAssetSupply(ctx, supply, supply.CurrentSupply.Denom)",
+     "HtlcInitGenesis: d2 k.SetHTLC(ctx, htlc, id)",
+     "HtlcInitGenesis: d2 k.AddHTLCToExpiredQueue(ctx, htlc.ExpirationHeight, id)",
+     "HtlcInitGenesis: d1 k.SetHTLC(ctx, htlc, id)",
+     "HtlcInitGenesis: d1 k.AddHTLCToExpiredQueue(ctx, htlc.ExpirationHeight, id)",
+     "MtInitGenesis: d0 k.SetDenomSequence(ctx, uint64(len(data.Collections)+1))",
+     "MtInitGenesis: d1 k.SetDenom(ctx, *c.Denom)",
+     "MtInitGenesis: d2 k.IncreaseDenomSupply(ctx, c.Denom.Id)",
+     "MtInitGenesis: d2 k.SetMT(ctx, c.Denom.Id, m)",
+     "MtInitGenesis: d0 k.SetMTSequence(ctx, mtSequence)",
+     "CoinswapInitGenesis: d0 k.SetStandardDenom(ctx, genState.StandardDenom)",
+     "CoinswapInitGenesis: d0 k.setSequence(ctx, genState.Sequence)",
+     "CoinswapInitGenesis: d1 k.setPool(ctx, &poolCopy)",
+     "FarmInitGenesis: d2 k.SetRewardRule(ctx, pool.Id, r)",
+     "FarmInitGenesis: d1 k.SetPool(ctx, pool)",
+     "FarmInitGenesis: d2 k.EnqueueActivePool(ctx, pool.Id, pool.EndHeight)",
+     "FarmInitGenesis: d1 k.SetFarmInfo(ctx, farmInfo)",
+     "FarmInitGenesis: d1 k.SetEscrowInfo(ctx, info)",
+     "FarmInitGenesis: d0 k.SetSequence(ctx, data.Sequence)"] := rfl
+
 /-- HTLC `InitGenesis`: a stored supply record aborts the import exactly when one of the six comparisons the model's
 `checkSupply` makes fails (recorded incoming / outgoing ≠ the tallies of the open transfers; current, incoming, their
 sum or outgoing above the limit) -/
